@@ -98,6 +98,8 @@ int main(int argc, char ** argv) {
             POMDP::ValueFunction vf;
             if (repr == "dense") vf = solve(alg, dense, h, nb, minR);
             else if (repr == "generic") { GenericPOMDP g(dense); vf = solve(alg, g, h, nb, minR); }
+            else if (repr == "mixed1") { POMDP::Model<MDP::SparseModel> x(dense); vf = solve(alg, x, h, nb, minR); }
+            else if (repr == "mixed2") { POMDP::SparseModel<MDP::Model> x(dense); vf = solve(alg, x, h, nb, minR); }
             else { POMDP::SparseModel<MDP::SparseModel> sp(dense); vf = solve(alg, sp, h, nb, minR); }
             dumpVF(o, vf);
             // execute POMDP::Policy from each belief, following links
